@@ -88,7 +88,8 @@ def zoom_cases(draw):
             "consistent": consistent, "others": others, "targets": tm, "ladder": ladder,
             "chunksize": draw(st.sampled_from([1, 3, 10, 10**6])), "nproc": draw(st.sampled_from([1] * 12 + [2])),
             "cols": draw(st.sampled_from([None, None, ["count"], ["count", "x"]])),
-            "base_order": list(draw(st.permutations(list(range(len(base_mults))))))}
+            "base_order": list(draw(st.permutations(list(range(len(base_mults)))))),
+            "base_dtypes": [draw(st.sampled_from(["int32", "int32", "float64", "int64"])) for _ in base_mults]}
 
 
 def _read(clr, cols):
@@ -124,9 +125,13 @@ def check_zoom(case, ctx: Ctx):
             p = os.path.join(work, f"base{m}.cool")
             uri = p if t % 2 == 0 else p + "::/b"
             nb = gen.n_bins(bt_m)
+            bdt = (case.get("base_dtypes") or ["int32"] * 9)[t]
+            if bdt == "float64" and not case["consistent"] and t > 0:
+                # an unrelated base may also hold fractional counts
+                rows_m = [[r[0], r[1], r[2] + 0.25, *r[3:]] for r in rows_m]
             call("create base", create_from_model, uri, bt_m, rows_m, symmetric, cols=("count", "x"),
                  bins_extra={"weight": np.arange(nb, dtype=float) / 4 + 0.5}, metadata={"base": m},
-                 assembly="asm" + str(m), h5opts={"compression": None})
+                 assembly="asm" + str(m), dtypes={"count": np.dtype(bdt)}, h5opts={"compression": None})
             bases[m] = (uri, bt_m, rows_m)
         out = os.path.join(work, "out.mcool")
         resolutions = [unit * t for t in case["targets"]]
@@ -211,6 +216,12 @@ def cli_cases(draw):
     nb = [draw(st.integers(600, 1500)), draw(st.integers(500, 900))]
     kind = draw(st.sampled_from(["list", "kN", "kB", "n", "b", "4dn", "default", "mixed"]))
     k = b * draw(st.sampled_from([1, 1, 2, 5]))
+    exact = draw(st.booleans())     # genome length chosen so that ceil(total/256) is exactly a progression member
+    if exact:
+        member = b * draw(st.sampled_from([4, 8, 10, 20, 16, 5, 2]))
+        total_bins = 256 * member // b
+        n0 = draw(st.integers(total_bins // 3, 2 * total_bins // 3))
+        nb = [n0, total_bins - n0]
     if kind == "list":
         spec = ",".join(str(b * m) for m in draw(st.lists(st.sampled_from([1, 2, 3, 4, 6, 8, 10]), min_size=1, max_size=4, unique=True)))
     elif kind == "kN":
@@ -229,7 +240,7 @@ def cli_cases(draw):
         spec = None
     else:
         spec = f"{b * 3},{k}{draw(st.sampled_from(['B', 'b', 'N']))}"
-    return {"part": "cli", "b": b, "nbins": nb, "kind": kind, "spec": spec,
+    return {"part": "cli", "b": b, "nbins": nb, "kind": kind, "spec": spec, "exact": exact and kind != "4dn",
             "px": draw(st.lists(st.tuples(st.integers(0, 499), st.integers(0, 499), st.integers(1, 9)), min_size=1, max_size=12,
                                 unique_by=lambda t: (min(t[0], t[1]), max(t[0], t[1]))))}
 
@@ -283,7 +294,7 @@ def check_cli(case, ctx: Ctx):
     from ..coolio import create_from_model
 
     b, nb = case["b"], case["nbins"]
-    bt = model.binnify(["chr1", "chr2"], [nb[0] * b - b // 3, nb[1] * b], b)
+    bt = model.binnify(["chr1", "chr2"], [nb[0] * b - (0 if case.get("exact") else b // 3), nb[1] * b], b)
     rows = sorted([min(i, j), max(i, j), v] for i, j, v in case["px"])
     work = ctx.tmpdir()
     try:
@@ -315,7 +326,8 @@ def check_cli(case, ctx: Ctx):
             check(model.read_bins(clr) == model.bins_rows(model.coarsen_bins(bt, k) if k > 1 else bt), f"level {r} bin table differs")
     finally:
         ctx.clean(work)
-    ctx.record(case, len(want) >= 3, ["cli", "cli-" + case["kind"], f"cli-levels={min(len(want), 6)}"])
+    ctx.record(case, len(want) >= 3, ["cli", "cli-" + case["kind"], f"cli-levels={min(len(want), 6)}",
+                                      "cli-maxres-is-member" if maxres in want else "cli-maxres-between"])
 
 
 CHECKS = {"zoom": check_zoom, "cli": check_cli}
